@@ -164,3 +164,16 @@ Proof.
   apply used_bucket_id_refused with (id := id); [eapply mreach_Inv; eassumption | | exact Hc'].
   apply (proj2 (mreach_used _ _ Hr)). exact Hu.
 Qed.
+
+(** ** The fee denomination (C13), under every interleaving: only the cycle message touches it. *)
+Inductive mreach_but (P : exec_msg -> Prop) : mstate -> mstate -> Prop :=
+| mb_refl s : mreach_but P s s
+| mb_step s s1 s2 o e sender fs m out :
+    mreach_but P s s1 -> execute o e sender fs m s1 = Ok (s2, out) -> ~ P m -> mreach_but P s s2.
+
+Theorem fee_changes_only_by_cycle s s' :
+  mreach_but (fun m => m = FeeCycle) s s' -> fee s' = fee s.
+Proof.
+  induction 1 as [|s s1 s2 o e sender fs m out _ IH He Hm]; [reflexivity|].
+  rewrite (execute_fee_frame _ _ _ _ _ _ _ _ He Hm). exact IH.
+Qed.
